@@ -94,6 +94,35 @@ def int_validate_from_str(min_val: Optional[int], max_val: Optional[int], val: i
     return ok(run(val) == run(_IntLike(val)))
 
 
+def int_validate_str(min_val: Optional[int], max_val: Optional[int], s: str) -> bool:
+    """
+    pre: len(s) <= 3
+    pre: all(c in "-09 x" for c in s)
+    post: _
+    """
+    # a string candidate: accepted iff it denotes (int(s)) an integer inside the declared range; normalised to that int
+    kwargs = {}
+    if min_val is not None: kwargs['min'] = min_val
+    if max_val is not None: kwargs['max'] = max_val
+    try:
+        conv = dp.IntConverter(FakeProvider(), int, FakeAttr(int, kwargs))
+    except (TypeError, ValueError):
+        return ok(True)
+    try:
+        n = int(s)
+    except ValueError:
+        n = None
+    try:
+        got = conv.validate(s)
+        accepted = True
+    except ValueError:
+        accepted, got = False, None
+    expected = n is not None and (min_val is None or n >= min_val) and (max_val is None or n <= max_val)
+    if accepted != expected:
+        return ok(False)
+    return ok((not accepted) or (got == n and type(got) is int))
+
+
 class _IntLike(object):
     def __init__(self, v): self.v = v
     def __index__(self): return self.v
